@@ -1,6 +1,7 @@
 /-
   Property C05 — a diff is empty exactly when the documents are equal.
-  Statement file (proofs in JdProofs/DiffEmpty.lean).
+  Statement file (proofs: list reading in JdProofs/DiffEmpty.lean; SET / MULTISET readings and
+  SetKeys in JdProofs/DiffEmptySet.lean, namespace `Jd.DES`).
 
   Model side: `diffM o a b` is `a.Diff(b, options...)` (JdModel/Diff.lean), `equals o a b` is
   `a.Equals(b, options...)` (JdModel/Equals.lean). There is no separate spec: the property relates
@@ -11,12 +12,40 @@
     (`precOf o = 0`): `diff_empty_iff_equals`, an iff; for MERGE no hash hypothesis is needed
     (`diff_empty_iff_equals_merge`). The two directions are also stated separately because their
     hypotheses differ.
+  * SET and MULTISET readings (`DES.SetReading o`: `dispatchTag o = .set` with no SetKeys, or
+    `dispatchTag o = .mset`), STRICT or MERGE strategy (so SET, MULTISET, SET+MERGE, MULTISET+MERGE),
+    no Precision, arrays nested anywhere:
+      (⇒) `diff_empty_implies_equal_setmodes`: an empty diff means `Equals`, with NO hash hypothesis
+          and no float hypothesis (the diff compares member hash codes, `Equals` compares the hash
+          code of the sorted member hash codes: what the diff cannot see, `Equals` cannot see).
+      (⇐) `equal_implies_diff_empty_setmodes`: `Equals` means an empty diff UNDER `DES.DiffFaithful`
+          (decidable; see HYPOTHESES). WITHOUT it (⇐) IS FALSE ON THE CODE AS IT IS — two witnesses,
+          both confirmed on the Go code:
+            `alias_breaks_converse`: `[{"a":""}]` against `[{"a":[]}]` under SET and SET+MERGE —
+              Equal, diff not empty. By pre-image ALIASING (`""` and `[]` have the same hash code):
+              a consequence of the known finding KF-C04-alias.
+            `fnv_collision_breaks_converse`: `["aedb68afb","b7cdeb749"]` against
+              `["a568b3ad2","b76a57d20"]` under SET, MULTISET, SET+MERGE, MULTISET+MERGE — Equal, diff
+              not empty. A GENUINE FNV-1a 64 COLLISION of two 16-byte pre-images (the four members
+              have four different hash codes: `fnv_collision_members_distinct`); no alias involved.
+      `diff_empty_iff_equals_setmodes` (the iff under `DiffFaithful`), `diff_empty_iff_equals_four_option_lists`
+      (the four literal option lists), `diff_empty_iff_equals_setmodes_hashFaithful` (the iff under the
+      hypothesis family of C01 / C04: `HashFaithful`, `setDoc`, `FloatEq0`).
+  * SetKeys (`dispatchTag o = .set`, `keysOf o` arbitrary, either strategy, no Precision):
+    `diff_empty_iff_equals_setkeys` and the two directions, under `DES.IdentInj` (the keys identify the
+    members of every set), `DES.KindSepI` / `DES.KindSepH` and `DES.DiffFaithful`. When two members of
+    one set share an identity BOTH DIRECTIONS ARE FALSE on the code as it is, no collision involved
+    (`setkeys_forward_fails`: empty diff, not Equal; `setkeys_converse_fails`: Equal, non-empty diff;
+    the class of the known finding KF-C01-identperm).
   * Precision: the property is FALSE on the code as it is (`precision_counterwitness`, known finding
-    KF-C05-precision: `diff_common.go` calls `Equals` without the options).
-  * SET / MULTISET / SetKeys: no theorem (correspondence and oracle only).
+    KF-C05-precision: `diff_common.go` calls `Equals` without the options). This is why every theorem
+    of this file has `precOf o = 0`, in the set modes as well.
   * The CLI half (exit status 0 / 1) is in JdProps/C14.lean.
+  NOT PROVED: SET / MULTISET / SetKeys together with a Precision option (false already for scalars);
+  necessity of `KindSepI` / `KindSepH` (no witness known: it would take a genuine collision between
+  an object identity and a string hash code).
 
-  HYPOTHESES and why
+  HYPOTHESES of the LIST theorems, and why
     `Dom x` = `listDoc` ∧ `wf` (unique sorted keys) ∧ `finiteNums` ∧ `noNegZero` (kept from before the
        repair of D5b; `FloatEq0` says nothing about the bit pattern of `-0`);
     `a.rawDoc` for (⇐): the left document is as read from JSON / YAML (every array a plain
@@ -26,8 +55,28 @@
     `DE.HashOK o a b` for (⇒), strict strategy only: nodes of `a` and of `b` with the same FNV-1a
        hash code are Equal (list elements are matched by hash code; with a collision an empty diff
        would not mean equality).
+
+  HYPOTHESES of the SET / MULTISET / SetKeys theorems, and why
+    `a.rawDoc`: the left document as read from text; a `jsonSet`-typed left node is Equal to a plain
+       array but is replaced wholesale by the diff (`typed_set_left_is_excluded`; model only);
+    `a.wf`, `b.wf`: unique sorted keys, the model's invariant standing for Go maps
+       (`dup_keys_excluded`; model only). `b` may carry any array tags. No float hypothesis;
+    `DES.DiffFaithful o (subterms a) (subterms b)` for (⇐): for a node `x` of `a` and a node `y` of `b`
+       with the same hash code, (i) two arrays were hashed from the same list of member hash codes (no
+       FNV collision between array nodes), (ii) SET reading only: two objects are Equal (no collision
+       and no alias between object members of sets: the set diff matches members by hash code and
+       then diffs two matched objects member by member). Pairs of other kinds are unconstrained: the
+       scalar / array aliases of KF-C04-alias are harmless here, and in the MULTISET reading clause (ii)
+       is not required (`alias_harmless_for_multiset`). Implied by `HashFaithful` on `setDoc` documents;
+    SetKeys: `a.setDoc`, `b.setDoc` (rawDoc, wf, finiteNums, noNegZero), `FloatEq0` (Equal objects
+       have equal hash codes); `DES.IdentInj o S`: in every array node among `S` two members with the
+       same identity (hash codes of the values under the keys) have the same hash code;
+       `DES.KindSepI` / `DES.KindSepH`: no object has the identity / hash code of a non-object.
+       (⇒) uses `IdentInj` on both sides and `KindSepI`; (⇐) uses `DiffFaithful`, `KindSepH` and
+       `IdentInj` on `b`. All are decidable (`DES.diffFaithful_of_check`, `DES.Example.identInj_of_check`, …).
 -/
 import JdProofs.DiffEmpty
+import JdProofs.DiffEmptySet
 
 namespace Jd.Props.C05
 open Jd Jd.Spec
@@ -59,6 +108,78 @@ theorem diff_empty_implies_equal (o : Opts) (ho : dispatchTag o = .list) (hp : p
     equals o a b = true :=
   equals_of_diffM_nil o ho hp a b hl hl' hw hw' H hd
 
+/-! ## SET and MULTISET readings of arrays, strict or MERGE strategy, no Precision -/
+
+/-- **C05 (⇒), SET / MULTISET / SET+MERGE / MULTISET+MERGE:** an empty diff means `Equals` — NO hash
+    hypothesis, no float hypothesis; `b` may carry any array tags -/
+theorem diff_empty_implies_equal_setmodes (o : Opts) (hm : DES.SetReading o) (hp : precOf o = 0)
+    (a b : Json) (hr : a.rawDoc = true) (hw : a.wf = true) (hw' : b.wf = true)
+    (h : diffM o a b = []) : equals o a b = true :=
+  DES.equals_of_diffM_nil o hm hp a b hr hw hw' h
+
+/-- **C05 (⇐), the same readings:** `Equals` means an empty diff, when no two nodes of the two
+    documents collide harmfully (`DES.DiffFaithful`; false without it: `alias_breaks_converse`,
+    `fnv_collision_breaks_converse`) -/
+theorem equal_implies_diff_empty_setmodes (o : Opts) (hm : DES.SetReading o) (hp : precOf o = 0)
+    (a b : Json) (hr : a.rawDoc = true) (hw : a.wf = true) (hw' : b.wf = true)
+    (FH : DES.DiffFaithful o (subterms a) (subterms b)) (h : equals o a b = true) :
+    diffM o a b = [] :=
+  DES.diffM_nil_of_equals o hm hp a b hr hw hw' FH h
+
+/-- **C05, SET / MULTISET readings, strict or MERGE strategy, no Precision:** `a.Diff(b)` is empty if
+    and only if `a.Equals(b)` under the same options -/
+theorem diff_empty_iff_equals_setmodes (o : Opts) (hm : DES.SetReading o) (hp : precOf o = 0)
+    (a b : Json) (hr : a.rawDoc = true) (hw : a.wf = true) (hw' : b.wf = true)
+    (FH : DES.DiffFaithful o (subterms a) (subterms b)) :
+    diffM o a b = [] ↔ equals o a b = true :=
+  DES.diffM_nil_iff_equals o hm hp a b hr hw hw' FH
+
+/-- the four option lists of the property themselves, the two directions with their own hypotheses -/
+theorem diff_empty_iff_equals_four_option_lists {o : Opts}
+    (ho : o ∈ [[Opt.set], [.mset], [.set, .merge], [.mset, .merge]]) (a b : Json)
+    (hr : a.rawDoc = true) (hw : a.wf = true) (hw' : b.wf = true) :
+    (diffM o a b = [] → equals o a b = true) ∧
+    (DES.DiffFaithful o (subterms a) (subterms b) → equals o a b = true → diffM o a b = []) :=
+  DES.c05_setmodes ho a b hr hw hw'
+
+/-- the iff under the hypothesis family of C01 / C04 in the set modes (`setDoc` documents,
+    `HashFaithful` on all sub-terms, `FloatEq0`): these imply `DiffFaithful` -/
+theorem diff_empty_iff_equals_setmodes_hashFaithful (F : FloatEq0) (o : Opts)
+    (hm : DES.SetReading o) (hp : precOf o = 0) (a b : Json) (ha : a.setDoc = true)
+    (hb : b.setDoc = true) (HF : HashFaithful o (subterms a ++ subterms b)) :
+    diffM o a b = [] ↔ equals o a b = true :=
+  DES.diffM_nil_iff_equals_hashFaithful F o hm hp a b ha hb HF
+
+/-! ## SetKeys (sets of objects identified by keys), strict or MERGE strategy, no Precision -/
+
+/-- **C05 with SetKeys** (options reading arrays as sets; `keysOf o` arbitrary): the iff, when the
+    keys identify the members of every set (`IdentInj`) and there is no harmful collision -/
+theorem diff_empty_iff_equals_setkeys (F : FloatEq0) (o : Opts) (hd : dispatchTag o = .set)
+    (hp : precOf o = 0) (a b : Json) (ha : a.setDoc = true) (hb : b.setDoc = true)
+    (IA : DES.IdentInj o (subterms a)) (IB : DES.IdentInj o (subterms b))
+    (KI : DES.KindSepI o (subterms a) (subterms b)) (KH : DES.KindSepH o (subterms a) (subterms b))
+    (FH : DES.DiffFaithful o (subterms a) (subterms b)) :
+    diffM o a b = [] ↔ equals o a b = true :=
+  DES.diffM_nil_iff_equals_keys F o hd hp a b ha hb IA IB KI KH FH
+
+/-- (⇒) with SetKeys: needs `IdentInj` on both sides and `KindSepI`, no `DiffFaithful` -/
+theorem diff_empty_implies_equal_setkeys (F : FloatEq0) (o : Opts) (hd : dispatchTag o = .set)
+    (hp : precOf o = 0) (a b : Json) (ha : a.setDoc = true) (hb : b.setDoc = true)
+    (IA : DES.IdentInj o (subterms a)) (IB : DES.IdentInj o (subterms b))
+    (KI : DES.KindSepI o (subterms a) (subterms b)) (h : diffM o a b = []) :
+    equals o a b = true :=
+  DES.equals_of_diffNode_nil_keys F hd hp (isMerge o) IA IB KI a (docOk_of_setDoc ha)
+    (DES.within_subterms a) b (docOk_of_setDoc hb) (DES.within_subterms b) [] h
+
+/-- (⇐) with SetKeys: needs `DiffFaithful`, `KindSepH` and `IdentInj` on `b` only -/
+theorem equal_implies_diff_empty_setkeys (F : FloatEq0) (o : Opts) (hd : dispatchTag o = .set)
+    (hp : precOf o = 0) (a b : Json) (ha : a.setDoc = true) (hb : b.setDoc = true)
+    (IB : DES.IdentInj o (subterms b)) (KH : DES.KindSepH o (subterms a) (subterms b))
+    (FH : DES.DiffFaithful o (subterms a) (subterms b)) (h : equals o a b = true) :
+    diffM o a b = [] :=
+  DES.diffNode_nil_of_equals_keys F hd hp (isMerge o) FH KH IB a (docOk_of_setDoc ha)
+    (DES.within_subterms a) b (docOk_of_setDoc hb) (DES.within_subterms b) h []
+
 /-! ### Where the property is false, and why the hypotheses are there -/
 
 /-- KF-C05-precision: two numbers within `eps` but not identical are Equal under `Precision(eps)`
@@ -85,6 +206,102 @@ theorem negzero_pair_after_fix (hz : numWithin 0 0 negZeroBits = true) :
       diffM [] (.arr .raw [.num 0]) (.arr .raw [.num negZeroBits]) = [] :=
   negZero_after_fix hz
 
+/-! ### SET / MULTISET readings: (⇐) is false on the code as it is without `DiffFaithful` -/
+
+/-- **(⇐) FALSE by pre-image aliasing (consequence of KF-C04-alias), SET and SET+MERGE.**
+    `a = [{"a":""}]`, `b = [{"a":[]}]`: documents as read from text; the empty string and the empty
+    array have the same hash code, hence so have the two members; `a.Equals(b)` holds and `a.Diff(b)`
+    is NOT empty (the members are matched by hash code and then compared member by member).
+    Confirmed on the Go code. -/
+theorem alias_breaks_converse (a b : Json) (ha : a = .arr .raw [.obj [("a", .str "")]])
+    (hb : b = .arr .raw [.obj [("a", .arr .raw [])]]) :
+    a.rawDoc = true ∧ a.wf = true ∧ b.rawDoc = true ∧ b.wf = true ∧
+    equals [.set] a b = true ∧ diffM [.set] a b ≠ [] ∧
+    equals [.set, .merge] a b = true ∧ diffM [.set, .merge] a b ≠ [] := by
+  subst ha hb; exact DES.Witness.alias_breaks_converse
+
+/-- the alias pair is outside `DiffFaithful` (as it must be) -/
+theorem alias_pair_not_diffFaithful :
+    ¬ DES.DiffFaithful [.set] (subterms (.arr .raw [.obj [("a", .str "")]]))
+        (subterms (.arr .raw [.obj [("a", .arr .raw [])]])) :=
+  DES.Witness.alias_not_faithful
+
+/-- in the MULTISET reading the same pair is harmless (the multiset diff never looks inside a member):
+    `DiffFaithful` holds, the documents are Equal and the diff is empty -/
+theorem alias_harmless_for_multiset (a b : Json) (ha : a = .arr .raw [.obj [("a", .str "")]])
+    (hb : b = .arr .raw [.obj [("a", .arr .raw [])]]) :
+    DES.DiffFaithful [.mset] (subterms a) (subterms b) ∧ equals [.mset] a b = true ∧
+      diffM [.mset] a b = [] := by
+  subst ha hb; exact DES.Witness.alias_mset_consistent
+
+/-- **(⇐) FALSE outright by a genuine FNV-1a 64 collision — no alias involved — under SET, MULTISET,
+    SET+MERGE and MULTISET+MERGE.** `a = ["aedb68afb","b7cdeb749"]`, `b = ["a568b3ad2","b76a57d20"]`
+    (arrays of strings, no member in common): the two 16-byte strings "sorted hash codes of the
+    members" have the same FNV-1a hash code, so `a.Equals(b)` holds, while `a.Diff(b)` removes two
+    members and adds two. Confirmed on the Go code. -/
+theorem fnv_collision_breaks_converse (a b : Json)
+    (ha : a = .arr .raw [.str "aedb68afb", .str "b7cdeb749"])
+    (hb : b = .arr .raw [.str "a568b3ad2", .str "b76a57d20"]) :
+    a.rawDoc = true ∧ a.wf = true ∧ b.rawDoc = true ∧ b.wf = true ∧
+    (∀ o ∈ [[Opt.set], [.mset], [.set, .merge], [.mset, .merge]],
+      equals o a b = true ∧ diffM o a b ≠ []) := by
+  subst ha hb; exact DES.Witness.fnv_collision_breaks_converse
+
+/-- … and it is a collision of the ARRAY nodes only: the four members have four different hash codes -/
+theorem fnv_collision_members_distinct :
+    (hashList [.set]
+      [.str "aedb68afb", .str "b7cdeb749", .str "a568b3ad2", .str "b76a57d20"]).Nodup :=
+  DES.Witness.fnv_collision_members_distinct
+
+/-- why `rawDoc` on the left in the set modes: a `jsonSet`-typed node against a plain array is Equal
+    but the diff replaces it wholesale (model only: a `jsonSet` exists in Go only as the result of
+    `dispatch`) -/
+theorem typed_set_left_is_excluded (m : Bool) :
+    equals [.set] (.arr .set []) (.arr .raw []) = true ∧
+      diffNode [.set] m (.arr .set []) (.arr .raw []) [] ≠ [] :=
+  DES.Witness.typed_set_left_is_excluded m
+
+/-- why `wf`: with a duplicated object key the model's `Equals` compares the numbers of bindings, the
+    diff does not (model only: a Go map has no duplicated key) -/
+theorem dup_keys_excluded :
+    equals [.set] (.obj [("a", .str "x"), ("a", .str "x")]) (.obj [("a", .str "x")]) = false ∧
+      diffM [.set] (.obj [("a", .str "x"), ("a", .str "x")]) (.obj [("a", .str "x")]) = [] :=
+  DES.Witness.dup_keys_excluded
+
+/-! ### SetKeys: both directions are false on the code as it is when two members of one set share an
+    identity (class of KF-C01-identperm; no hash collision involved; confirmed on the Go code) -/
+
+/-- **(⇒) FALSE under SetKeys(id).** `a = [{"id":"k","v":"x"},{"id":"k","v":"y"}]`,
+    `b = [{"id":"k","v":"y"}]`: only the last bearer of the identity is compared; the diff is EMPTY
+    although the documents are NOT Equal -/
+theorem setkeys_forward_fails (a b : Json)
+    (ha : a = .arr .raw [.obj [("id", .str "k"), ("v", .str "x")],
+                         .obj [("id", .str "k"), ("v", .str "y")]])
+    (hb : b = .arr .raw [.obj [("id", .str "k"), ("v", .str "y")]]) :
+    a.setDoc = true ∧ b.setDoc = true ∧
+    equals [.setKeys ["id"]] a b = false ∧ diffM [.setKeys ["id"]] a b = [] := by
+  subst ha hb; exact DES.Witness.setkeys_forward_fails
+
+/-- **(⇐) FALSE under SetKeys(id).** The same `a` against its members in the other order: the
+    documents are Equal, but the diff compares the LAST member of each side bearing the shared
+    identity and is NOT empty -/
+theorem setkeys_converse_fails (a c : Json)
+    (ha : a = .arr .raw [.obj [("id", .str "k"), ("v", .str "x")],
+                         .obj [("id", .str "k"), ("v", .str "y")]])
+    (hc : c = .arr .raw [.obj [("id", .str "k"), ("v", .str "y")],
+                         .obj [("id", .str "k"), ("v", .str "x")]]) :
+    a.setDoc = true ∧ c.setDoc = true ∧
+    equals [.setKeys ["id"]] a c = true ∧ diffM [.setKeys ["id"]] a c ≠ [] := by
+  subst ha hc; exact DES.Witness.setkeys_converse_fails
+
+/-- the two SetKeys witnesses are outside the domain of the SetKeys theorems: identities do not tell
+    the members of `a` apart -/
+theorem setkeys_witness_not_identInj :
+    ¬ DES.IdentInj [.setKeys ["id"]]
+        (subterms (.arr .raw [.obj [("id", .str "k"), ("v", .str "x")],
+                              .obj [("id", .str "k"), ("v", .str "y")]])) :=
+  DES.Witness.ka_not_identInj
+
 /-! Non-vacuity: `{"a":[null,"x"]}` against `{"a":[null,"y"]}` satisfies every hypothesis of the iff
     (the hash hypothesis is checked on all pairs of sub-terms in the kernel); both sides are false. -/
 
@@ -102,5 +319,58 @@ example : dispatchTag [] = .list ∧ precOf [] = 0 ∧ exA.rawDoc = true ∧ Dom
     first
     | (intro _; decide +kernel)
     | (intro e; exact absurd e (by decide +kernel))
+
+/-! Non-vacuity, set modes (documents of JdProofs/DiffEmptySet.lean, `DES.Example`):
+    `exA = {"s":[true,null,{"k":["x","y"]}],"t":"u"}`,
+    `exB = {"s":[{"k":["y","x","y"]},null,true,null],"t":"u"}` (equal to `exA` as sets),
+    `exC = {"s":[{"k":["y","x"]},null,true],"t":"u"}` (equal to `exA` as multisets),
+    `exD = {"s":[{"k":["y","z"]},null,true],"t":"u"}` (different in either reading).
+    `DiffFaithful` is checked on all pairs of sub-terms in the kernel. -/
+
+example : DES.Example.exA.rawDoc = true ∧ DES.Example.exA.wf = true ∧ DES.Example.exB.wf = true ∧
+    DES.Example.exC.wf = true ∧ DES.Example.exD.wf = true := DES.Example.ex_docs
+
+example : DES.DiffFaithful [.set] (subterms DES.Example.exA) (subterms DES.Example.exB) ∧
+    DES.DiffFaithful [.set, .merge] (subterms DES.Example.exA) (subterms DES.Example.exB) ∧
+    DES.DiffFaithful [.mset] (subterms DES.Example.exA) (subterms DES.Example.exC) ∧
+    DES.DiffFaithful [.mset, .merge] (subterms DES.Example.exA) (subterms DES.Example.exC) :=
+  ⟨DES.Example.ex_faithful_set, DES.Example.ex_faithful_set_merge, DES.Example.ex_faithful_mset,
+    DES.Example.ex_faithful_mset_merge⟩
+
+/-- both sides of the iff true (SET, SET+MERGE; MULTISET, MULTISET+MERGE) -/
+example : equals [.set] DES.Example.exA DES.Example.exB = true ∧
+    diffM [.set] DES.Example.exA DES.Example.exB = [] ∧
+    diffM [.set, .merge] DES.Example.exA DES.Example.exB = [] := DES.Example.ex_set
+
+example : equals [.mset] DES.Example.exA DES.Example.exC = true ∧
+    diffM [.mset] DES.Example.exA DES.Example.exC = [] ∧
+    diffM [.mset, .merge] DES.Example.exA DES.Example.exC = [] := DES.Example.ex_mset
+
+/-- both sides false ((⇒) used contrapositively) -/
+example : diffM [.mset] DES.Example.exA DES.Example.exB ≠ [] ∧
+    diffM [.set] DES.Example.exA DES.Example.exD ≠ [] ∧
+    diffM [.set, .merge] DES.Example.exA DES.Example.exD ≠ [] := DES.Example.ex_ne
+
+example : diffM [.set] DES.Example.exA DES.Example.exD = [] ↔
+    equals [.set] DES.Example.exA DES.Example.exD = true :=
+  diff_empty_iff_equals_setmodes _ (.inl ⟨rfl, rfl⟩) rfl _ _ DES.Example.ex_docs.1
+    DES.Example.ex_docs.2.1 DES.Example.ex_docs.2.2.2.2 DES.Example.ex_faithful_set_D
+
+/-- the `HashFaithful` form on the example documents of C01 (JdProofs/SetDiffPatch.lean) -/
+example (F : FloatEq0) :
+    diffM [.set] SetDP.Example.exA SetDP.Example.exB = [] ↔
+      equals [.set] SetDP.Example.exA SetDP.Example.exB = true :=
+  diff_empty_iff_equals_setmodes_hashFaithful F _ (.inl ⟨rfl, rfl⟩) rfl _ _
+    SetDP.Example.ex_docs.1 SetDP.Example.ex_docs.2.1 SetDP.Example.ex_hashFaithful_set
+
+/-- SetKeys(id): `kA = [{"id":"k","v":["p","q"]},{"id":"l","v":"y"}]` against
+    `kB = [{"id":"l","v":"y"},{"id":"k","v":["q","p","p"]}]` (the same set: both sides true) and
+    against `kD = [{"id":"l","v":"y"},{"id":"k","v":["q","r"]}]` (both sides false) satisfy every
+    hypothesis of `diff_empty_iff_equals_setkeys` -/
+example (F : FloatEq0) :
+    (equals [.setKeys ["id"]] DES.Example.kA DES.Example.kB = true ∧
+      diffM [.setKeys ["id"]] DES.Example.kA DES.Example.kB = []) ∧
+    (equals [.setKeys ["id"]] DES.Example.kA DES.Example.kD = false ∧
+      diffM [.setKeys ["id"]] DES.Example.kA DES.Example.kD ≠ []) := DES.Example.ex_keys F
 
 end Jd.Props.C05
